@@ -564,6 +564,122 @@ def run(chk):
                 if dimvec(unit) != dimvec(kdim) and not same_factor(unit, kdim):
                     chk.violation(r_fp, "%s=%s|%s" % (key, unit, kdim), "%s: the FieldProps table %s gives the unit `%s`, the keyword definition %s gives its data the dimension `%s`: an explicit array and the scalar of a box/region operation on the same keyword are converted with different factors" % (name, v["q"], unit, rel, kdim), v["file"], pair.get("l") or v["l"])
 
+    # ---- C02.udadim: the unit a UDA-controlled quantity gets when it is restored, against the unit its keyword gives it
+    r_ud = chk.rule("C02.udadim", "UnitSystem::uda_dim(control) - the dimension UDQActive::load_rst gives a user-defined argument when a run is restarted - converts with the same factor, in each of the four deck unit systems, as the dimension of the keyword item the control stands for (WCONPROD_ORAT: item ORAT of WCONPROD, ...; WELTARG_X like WCONPROD_X; an item without a dimension means identity): otherwise the same UDQ value is a different target before and after a restart", floor=20)
+    ud = fx.fn1("Opm::UnitSystem::uda_dim")
+    sws = [n for n in walk(ud["body"]) if n["k"] == "Switch"]
+    if len(sws) != 1:
+        raise core.AnalysisBroken("UnitSystem::uda_dim: switch not found")
+    ctl_measure = {}
+    pend = []
+    for st_ in sws[0]["body"]["c"]:
+        x = st_
+        while x.get("k") == "Case":
+            pend.append((strip(x["v"]).get("n"), x["l"]))
+            x = x.get("sub") or {}
+        if x.get("k") == "Return" and isinstance(x.get("e"), dict):
+            ms = [y["n"] for y in walk(x["e"]) if y["k"] == "Ref" and y.get("d") == "Enum" and "measure" in (y.get("q") or "")]
+            for lab, ln in pend:
+                ctl_measure[lab] = (ms[0] if len(ms) == 1 else None, ln)
+            pend = []
+        elif x.get("k") in ("Throw", "Break"):
+            pend = []
+    ALIAS = {"GCONINJE_SURFACE_MAX_RATE": ("GCONINJE", "SURFACE_TARGET"), "GCONINJE_RESV_MAX_RATE": ("GCONINJE", "RESV_TARGET"),
+             "GCONINJE_TARGET_REINJ_FRACTION": ("GCONINJE", "REINJ_TARGET"), "GCONINJE_TARGET_VOID_FRACTION": ("GCONINJE", "VOIDAGE_TARGET"),
+             "WCONPROD_LIFT": ("WCONPROD", "ALQ"), "WELTARG_LIFT": ("WCONPROD", "ALQ")}   # the item is named differently from the enumerator
+    kwitems = {}
+    for rel in listed:
+        base = rel.split("/")[-1]
+        if base in ("WCONPROD", "WCONINJE", "GCONPROD", "GCONINJE"):
+            try:
+                d = load_kw_json(os.path.join(kwroot, rel))
+            except Exception:
+                continue
+            for it in d.get("items", []):
+                kwitems[(base, it["name"])] = it.get("dimension")
+    from_tabs = {sysname: table("from_" + sysname)[0] for sysname in SYSTEMS}
+    for ctl, (meas, ln) in sorted(ctl_measure.items()):
+        if ctl in ALIAS:
+            kw_it = ALIAS[ctl]
+        else:
+            kw_, _, it_ = ctl.partition("_")
+            kw_it = ("WCONPROD" if kw_ == "WELTARG" else kw_, it_)
+        if ctl.endswith("_LIFT"):
+            chk.info(r_ud, "uda_dim(%s): the unit of the artificial lift quantity is decided by the ALQ type of the well's VFP table (ALQValue.set_dim), not by the keyword item; not compared" % ctl)
+            continue
+        if kw_it not in kwitems:
+            chk.info(r_ud, "uda_dim: no keyword item found for control %s (looked for %s %s)" % (ctl, kw_it[0], kw_it[1]))
+            continue
+        kdim = kwitems[kw_it]
+        if kdim is not None and isinstance(kdim, list):
+            kdim = kdim[0]
+        key = "uda_dim:%s" % ctl
+        if meas is None or meas not in measures:
+            raise core.AnalysisBroken("uda_dim: measure returned for %s not identified" % ctl)
+        mi_ = measures.index(meas)
+        diffs = []
+        for sysname in SYSTEMS:
+            fm = from_tabs[sysname][mi_]
+            fmv = float(fm.get("fv", fm.get("v"))) if fm.get("fv", fm.get("v")) is not None else None
+            fk = numfac(kdim, sysname) if kdim not in (None, "1") else 1.0
+            if fmv is None or fk is None:
+                raise core.AnalysisBroken("uda_dim: factors of %s / '%s' in %s not evaluated" % (meas, kdim, sysname))
+            if abs(fmv - fk) > 1e-12 * max(abs(fmv), abs(fk)):
+                diffs.append((sysname, fmv / fk))
+        chk.instance(r_ud, key, sample=dict(control=ctl, measure=meas, keyword=kw_it[0], item=kw_it[1], item_dimension=kdim, systems_that_differ=[d_[0] for d_ in diffs]))
+        if diffs:
+            chk.violation(r_ud, "%s=%s|%s" % (key, meas, kdim), "UnitSystem::uda_dim(%s) is measure::%s, the item %s of %s has the dimension `%s`: in %s the factors differ (restart / original run = %s) - a UDQ-controlled %s means another target after a restart" % (ctl, meas, kw_it[1], kw_it[0], kdim, ", ".join(d_[0].upper() for d_ in diffs), ", ".join("%.6g" % d_[1] for d_ in diffs), kw_it[1]), ud["file"], ln)
+
+    # ---- C02.propdim: the default dimension of a UDA-valued well target against the keyword item it is read from
+    r_pd = chk.rule("C02.propdim", "WellProductionProperties / WellInjectionProperties: the dimension a UDAValue member is constructed with (units.getDimension(measure::M)) - the one that stays in force when the value is later updated in place by WELTARG or WCONHIST, or restored from a restart file - converts with the same factor, in every deck unit system, as the dimension of the keyword item the member is assigned from (this->OilRate = record.getItem(\"ORAT\").get<UDAValue>(0) in the WCONPROD / WCONINJE handlers); an item without a dimension means identity", floor=10)
+    pdx = chk.facts(["opm/input/eclipse/Schedule/Well/WellProductionProperties.cpp", "opm/input/eclipse/Schedule/Well/WellInjectionProperties.cpp"])
+    for cls, kwname in (("WellProductionProperties", "WCONPROD"), ("WellInjectionProperties", "WCONINJE")):
+        ctor = [f for f in pdx.fns if f["n"] == cls and f.get("inits") and f["params"] and "UnitSystem" in (f["params"][0].get("t") or "")]
+        if len(ctor) != 1:
+            raise core.AnalysisBroken("%s(const UnitSystem&, name) not found" % cls)
+        ctor = ctor[0]
+        defaults = {}
+        for i_ in ctor["inits"]:
+            ms = [y["n"] for y in walk(i_["init"]) if y["k"] == "Ref" and y.get("d") == "Enum" and "measure" in (y.get("q") or "")]
+            if len(ms) == 1 and any(x["k"] == "MCall" and x.get("m") == "getDimension" for x in walk(i_["init"])):
+                defaults[i_["member"]] = (ms[0], (i_["init"].get("l") or ctor["l"]))
+        items_of = {}
+        for f in pdx.fns:
+            if not f.get("body") or not (f.get("cls") or "").endswith(cls):
+                continue
+            for n in walk(f["body"]):
+                if n["k"] in ("Bin", "OpCall") and n.get("op") == "=" and (n.get("asg") or n["k"] == "OpCall"):
+                    l_, r_ = (n.get("c") or n.get("a"))
+                    l_ = strip(l_)
+                    if l_.get("k") == "Mem" and strip(l_.get("b") or {"k": "This"}).get("k") == "This" and l_["n"] in defaults:
+                        rt = show(strip(r_))
+                        m = re.fullmatch(r"\w+\.getItem\((?:const std::string\{)?\"(\w+)\"(?:, <default>\})?\)\.get\(0\)", rt)
+                        if m:
+                            items_of.setdefault(l_["n"], set()).add(m.group(1))
+        if len(defaults) < 4 or len(items_of) < 3:
+            raise core.AnalysisBroken("%s: default dimensions (%d) / item assignments (%d) not found" % (cls, len(defaults), len(items_of)))
+        for mem, (meas, ln) in sorted(defaults.items()):
+            for it_ in sorted(items_of.get(mem, ())):
+                if (kwname, it_) not in kwitems:
+                    continue
+                kdim = kwitems[(kwname, it_)]
+                if it_ == "ALQ":
+                    continue
+                mi_ = measures.index(meas)
+                diffs = []
+                for sysname in SYSTEMS:
+                    fm = from_tabs[sysname][mi_]
+                    fmv = float(fm.get("fv", fm.get("v")))
+                    fk = numfac(kdim, sysname) if kdim not in (None, "1") else 1.0
+                    if fk is None:
+                        raise core.AnalysisBroken("C02.propdim: factor of '%s' in %s not evaluated" % (kdim, sysname))
+                    if abs(fmv - fk) > 1e-12 * max(abs(fmv), abs(fk)):
+                        diffs.append((sysname, fmv / fk))
+                key = "%s::%s<-%s" % (cls, mem, it_)
+                chk.instance(r_pd, key, sample=dict(member=mem, default_measure=meas, keyword=kwname, item=it_, item_dimension=kdim, systems_that_differ=[d_[0] for d_ in diffs]))
+                if diffs:
+                    chk.violation(r_pd, key, "%s::%s is constructed with measure::%s but assigned from item %s of %s, whose dimension is `%s`: in %s the factors differ (default / keyword = %s), so a target set in place (WELTARG, WCONHIST) or restored from a restart file has another SI value than the same number in %s" % (cls, mem, meas, it_, kwname, kdim, ", ".join(d_[0].upper() for d_ in diffs), ", ".join("%.6g" % d_[1] for d_ in diffs), kwname), ctor["file"], ln)
+
     # ---- output conversions
     r_io = chk.rule("C02.io", "convertFromSI / convertToSI of RestartValue and data::Solution are mirror images (from_si <-> to_si) and visit every entry", floor=4)
     for cls, file_ in (("Opm::RestartValue", "RestartValue.cpp"), ("Opm::data::Solution", "Solution.cpp")):
